@@ -57,7 +57,10 @@ def build_wsdl(ir, kind='soap11'):
     from spyne.protocol.soap import Soap11, Soap12
     B = gen.Built(ir)
     c = Soap11 if kind == 'soap11' else Soap12
-    app = B.app(c(), c())
+    # the validator is part of the application's configuration; which one is used follows from the universe id so that the
+    # determinism subprocesses build the same application
+    validator = (None, 'soft', 'lxml')[ir['uid'] % 3]
+    app = B.app(c(validator=validator), c())
     from spyne.server.wsgi import WsgiApplication
     app._vf_wsgi = WsgiApplication(app)        # the transport names itself in the binding (soap/http)
     w = app.interface.docs.wsdl11
@@ -85,6 +88,12 @@ def check_closure(R, wsdl_bytes, ir, repro):
                 types.add((sns, c.get('name')))
             elif ln == 'element':
                 elements.add((sns, c.get('name')))
+    for imp in root.iter('{%s}import' % XS):
+        R.count('imports_checked')
+        if imp.get('schemaLocation') is not None:
+            # the schemas are embedded: a schemaLocation points outside the one document a client is given
+            R.violation('xs:import of %s carries schemaLocation="%s": the WSDL is not self-contained' % (imp.get('namespace'), imp.get('schemaLocation')),
+                        repro, mech='import_schema_location_outside_document')
     messages = set((tns, m.get('name')) for m in root.findall('{%s}message' % WSDL))
     port_types = set((tns, m.get('name')) for m in root.findall('{%s}portType' % WSDL))
     bindings = set((tns, m.get('name')) for m in root.findall('{%s}binding' % WSDL))
